@@ -241,6 +241,20 @@ fn run(ctx: &mut Ctx) {
     let tier = ctx.tier;
     let mut v = Run { cases: tier.pick(150, 10_000), ctx };
     for_each_type(&mut v);
+    {
+        let edges = int_edges();
+        macro_rules! sweep {
+            ($($t:ty),*) => {$(
+                for e in &edges {
+                    if let Ok(x) = <$t>::try_from(*e) {
+                        ctx.observe(concat!("int-edges/", stringify!($t)), check_shape::<$t>(stringify!($t), &x));
+                    }
+                }
+                ctx.flush_failures();
+            )*};
+        }
+        sweep!(i8, i16, i32, i64, u8, u16, u32, u64);
+    }
     ctx.run_prop("alike-keys", tier.pick(3000, 100_000), g_alike(), check_alike);
     let x = (vec![1u8, 2], (3i8, 4i8));
     ctx.add_sample("shape", json!({"type": "(Vec<u8>,(i8,i8))", "documented": serde_lexpr::to_string(&x).unwrap_or_default(), "flipped node 0": "((1 2) #(3 4)) / #(#(1 2) #(3 4))", "improper": "#((1 2 . 5) #(3 4))"}));
